@@ -420,6 +420,15 @@ def read_source(repo: Path | None = None):
     repo = Path(repo) if repo else common.REPO
     trees = {}
     out = {"skeletons": [], "pops": [], "signature": []}
+    # per optimiser class (method found in the class or along its bases inside the module)
+    for tag, path, cname in CLASSES:
+        tree = ast.parse((repo / path).read_text())
+        classes = _classes(tree)
+        for mname in ("_objective_evaluatable", "minimizer"):
+            fn = _method(classes, cname, mname)
+            if fn is None:
+                raise Untranslatable(f"{path}: {cname}.{mname} not found inside the module")
+            out["skeletons"].append((f"{cname}.{mname}", _skeleton(fn.body, 0, [])))
     for key, path, cname, fname in SKELETONS:
         if path not in trees:
             trees[path] = ast.parse((repo / path).read_text())
